@@ -114,6 +114,24 @@ PROPS["C10"] = {
 }
 
 
+RENDER_MODELLED = CORE_MODELLED + ["modelled, not verified: xml-builder's rendering, the format strings of dot.rs/debug.rs/inspect.rs, itertools::sorted, the derived Ord of Label; the real texts are parsed back into records and compared structurally with the model's documents (exact text equality is recorded only)"]
+PROPS["C18"] = {
+    "quick": [("render", 200, 80)],
+    "thorough": [("render", 4000, 160)],
+    "rule": "graphs out of bind-heavy histories (after collections, never-added slots, re-added ids, both Hex representations, empty data, labels of all three variants), exported three times per history, plus a twin graph with the same content built differently (larger capacity, reverse add/bind order, data never read) whose texts must be identical; non-trivial = a history with at least one collection",
+    "nontrivial": "collections",
+    "modelled": RENDER_MODELLED,
+    "partial": ["same_content_same_text is stated for graphs of equal capacity (the twin comparison with a different capacity is decided by the run)"],
+}
+PROPS["C20"] = {
+    "quick": [("render", 200, 80)],
+    "thorough": [("render", 4000, 160)],
+    "rule": "as C18; inspect() and v_print() of every present vertex, Debug and Display of the graph; cycles, diamonds and self-reaching vertices occur by random binding among <= 20 ids (the count of inspect texts with ellipsis marks is reported); a missing answer (abort, stack overflow, time-out) is attributed to the call; non-trivial = a history with at least one collection",
+    "nontrivial": "collections",
+    "modelled": RENDER_MODELLED,
+}
+
+
 def nontrivial(prop, h):
     first, last, coll, readds, overw, nextids, judged = h[:7]
     kind = PROPS[prop].get("nontrivial", "any")
